@@ -1,4 +1,5 @@
 import LinfaSpec.Proofs.Gmm
+import LinfaSpec.Proofs.GmmReal
 import Mathlib.Tactic.NormNum
 
 /-!
@@ -151,5 +152,150 @@ example : ∃ p : Params ℚ,
 example : estimateParams (1/100 : ℚ) (1/4) 3 1 2 [[0], [2], [10]] [[1, 0], [1, 0], [1, 0]]
     = .error "EmptyCluster" := by
   norm_num [estimateParams, nkOf, meansOf, covOf, sumRange, sumS, at2, List.range_succ]
+
+/-! ## Precisions -/
+
+/-- **precisions are the inverses of the covariances**, under the contract of the
+two `linfa-linalg` calls of `compute_precisions_cholesky_full`: `L = cholesky(Σ)`
+with `L Lᵀ = Σ`, `sol = solve_triangular(L, I)` with `L·sol = I`, and
+`precisions_chol = solᵀ`.  Then `precisions = C Cᵀ` (`precisionsFull`) satisfies
+`P Σ = Σ P = I`. -/
+theorem precision_is_inverse {α : Type} [Field α] (d : Nat) (pc : List (List α))
+    (L sol Sig : Matrix (Fin d) (Fin d) α)
+    (hchol : L * L.transpose = Sig) (hsolve : L * sol = 1) (hpc : toMat d pc = sol.transpose) :
+    toMat d (precisionsFull d pc) * Sig = 1 ∧ Sig * toMat d (precisionsFull d pc) = 1 := by
+  have hsl : sol * L = 1 := mul_eq_one_comm.mp hsolve
+  have h1 : toMat d (precisionsFull d pc) * Sig = 1 := by
+    rw [precisionsFull_toMat, hpc, ← hchol, Matrix.transpose_transpose]
+    calc sol.transpose * sol * (L * L.transpose)
+        = sol.transpose * ((sol * L) * L.transpose) := by simp only [Matrix.mul_assoc]
+      _ = sol.transpose * L.transpose := by rw [hsl, Matrix.one_mul]
+      _ = (L * sol).transpose := by rw [Matrix.transpose_mul]
+      _ = 1 := by rw [hsolve, Matrix.transpose_one]
+  exact ⟨h1, mul_eq_one_comm.mp h1⟩
+
+/-- non-vacuity: `Σ = [[4]]`, `L = [[2]]`, `sol = [[1/2]]`, `precisions_chol = [[1/2]]` -/
+example : toMat 1 (precisionsFull 1 [[(1/2 : ℚ)]]) * (Matrix.of fun _ _ => (4 : ℚ)) = 1 := by
+  refine (precision_is_inverse 1 [[(1/2 : ℚ)]] (Matrix.of fun _ _ => 2) (Matrix.of fun _ _ => 1/2)
+    (Matrix.of fun _ _ => 4) ?_ ?_ ?_).1
+  · funext a b; simp [Matrix.mul_apply]; norm_num
+  · funext a b; simp [Matrix.mul_apply, Matrix.one_apply, Subsingleton.elim a b]
+  · funext a b
+    have ha : a = 0 := Subsingleton.elim _ _
+    have hb : b = 0 := Subsingleton.elim _ _
+    subst ha; subst hb
+    simp [toMat, at2]
+
+/-! ## Probabilities (over ℝ) -/
+
+theorem weightedLogProb_ne_nil (ln2pi : ℝ) (d : Nat) (w : List ℝ) (mu : List (List ℝ))
+    (pcs : List (List (List ℝ))) (x : List ℝ) (hk : w ≠ []) :
+    weightedLogProb ln2pi d w mu pcs x ≠ [] := by
+  unfold weightedLogProb
+  intro h
+  have := congrArg List.length h
+  simp at this
+  exact hk this
+
+/-- responsibilities of an E-step row (`exp(log_resp)`) sum to one — with
+`resp_row_pos` the hypotheses of the M-step theorems above -/
+theorem resp_row_sum_one (wlp : List ℝ) (hl : wlp ≠ []) :
+    sumS ((logRespStable wlp).2.map Transc.exp) = 1 := by
+  rw [sumS_eq_sum, logRespStable_snd]
+  have hsh : wlp.map (fun v => v - rowMax wlp) ≠ [] := by simpa using hl
+  have := softmax_sum (wlp.map (fun v => v - rowMax wlp)) hsh
+  have hmap : ∀ l : List ℝ, l.map Transc.exp = l.map Real.exp := fun l => rfl
+  rw [hmap]
+  exact this
+
+theorem resp_row_pos (wlp : List ℝ) : ∀ p ∈ (logRespStable wlp).2.map Transc.exp, 0 < p := by
+  intro p hp
+  obtain ⟨y, _, rfl⟩ := List.mem_map.mp hp
+  exact Real.exp_pos y
+
+/-- **membership probabilities sum to one**, for every mixture with at least one
+component, every observation (near or far — over ℝ there is no underflow) -/
+theorem proba_sum_one (ln2pi : ℝ) (d : Nat) (w : List ℝ) (mu : List (List ℝ))
+    (pcs : List (List (List ℝ))) (x : List ℝ) (hk : w ≠ []) :
+    sumS (predictProba ln2pi d w mu pcs x) = 1 :=
+  resp_row_sum_one _ (weightedLogProb_ne_nil ln2pi d w mu pcs x hk)
+
+/-- probabilities are positive, one per component -/
+theorem proba_nonneg (ln2pi : ℝ) (d : Nat) (w : List ℝ) (mu : List (List ℝ))
+    (pcs : List (List (List ℝ))) (x : List ℝ) :
+    (predictProba ln2pi d w mu pcs x).length = w.length ∧
+    ∀ p ∈ predictProba ln2pi d w mu pcs x, 0 < p := by
+  refine ⟨?_, resp_row_pos _⟩
+  unfold predictProba logRespStable weightedLogProb
+  simp
+
+/-- **the predicted component is one of maximal probability** -/
+theorem predict_is_argmax (ln2pi : ℝ) (d : Nat) (w : List ℝ) (mu : List (List ℝ))
+    (pcs : List (List (List ℝ))) (x : List ℝ) (hk : w ≠ []) :
+    ∃ m, (predictProba ln2pi d w mu pcs x)[predict ln2pi d w mu pcs x]? = some m ∧
+      ∀ p ∈ predictProba ln2pi d w mu pcs x, p ≤ m := by
+  unfold predict
+  apply argmaxFirst_spec
+  intro h
+  have h1 := (proba_nonneg ln2pi d w mu pcs x).1
+  rw [h] at h1
+  exact hk (List.length_eq_zero_iff.mp h1.symm)
+
+/-- `argmax` in general: valid index, entry maximal (any linear order, any non-empty row) -/
+theorem argmaxFirst_is_max {α : Type} [LinearOrder α] [OfNat α 0] (l : List α) (hl : l ≠ []) :
+    ∃ m, l[argmaxFirst l]? = some m ∧ ∀ v ∈ l, v ≤ m := argmaxFirst_spec l hl
+
+example : argmaxFirst [(1 : Nat), 5, 3, 5] = 1 := by decide
+
+/-- **the repaired log-sum-exp is the naive one over ℝ**: same normaliser, same
+log-responsibilities — the repair changes nothing but the floating-point range -/
+theorem stable_eq_naive (wlp : List ℝ) (hl : wlp ≠ []) :
+    logRespStable wlp = logRespNaive wlp := by
+  have hshift := lse_shift wlp hl (rowMax wlp)
+  unfold logRespStable logRespNaive
+  simp only [sumS_eq_sum, transc_ln]
+  have hmap : ∀ l : List ℝ, l.map Transc.exp = l.map Real.exp := fun l => rfl
+  rw [hmap, hmap]
+  refine Prod.ext hshift ?_
+  rw [← hshift]
+  show List.map _ (List.map _ wlp) = List.map _ wlp
+  rw [List.map_map]
+  apply List.map_congr_left
+  intro v _
+  simp only [Function.comp]
+  ring
+
+/-- **why the repaired form cannot underflow**: in any ordered field with an
+`exp` that is non-negative, `exp 0 = 1` and `exp x ≤ 1` for `x ≤ 0` (true of IEEE
+`exp` as well), the normaliser `Σ exp(wlp − max)` lies in `[1, k]`; its logarithm
+is therefore finite, however far the observation is from every component. -/
+theorem lse_stable_finite {α : Type} [Field α] [LinearOrder α] [IsStrictOrderedRing α] [Transc α]
+    (hexp0 : Transc.exp (0 : α) = 1) (hnn : ∀ x : α, 0 ≤ Transc.exp x)
+    (hle : ∀ x : α, x ≤ 0 → Transc.exp x ≤ 1) (wlp : List α) (hl : wlp ≠ []) :
+    1 ≤ sumS ((wlp.map fun v => v - rowMax wlp).map Transc.exp) ∧
+    sumS ((wlp.map fun v => v - rowMax wlp).map Transc.exp) ≤ (wlp.length : α) := by
+  obtain ⟨hmem, hmax⟩ := rowMax_spec wlp hl
+  rw [sumS_eq_sum, List.map_map]
+  constructor
+  · have h1 : (Transc.exp ∘ fun v => v - rowMax wlp) (rowMax wlp) ∈
+        wlp.map (Transc.exp ∘ fun v => v - rowMax wlp) := List.mem_map.mpr ⟨_, hmem, rfl⟩
+    have h2 := List.single_le_sum (l := wlp.map (Transc.exp ∘ fun v => v - rowMax wlp)) (by
+      intro y hy
+      obtain ⟨z, _, rfl⟩ := List.mem_map.mp hy
+      exact hnn _) _ h1
+    simpa [hexp0] using h2
+  · have h2 := List.sum_le_card_nsmul (wlp.map (Transc.exp ∘ fun v => v - rowMax wlp)) (1 : α) (by
+      intro y hy
+      obtain ⟨z, hz, rfl⟩ := List.mem_map.mp hy
+      exact hle _ (sub_nonpos.mpr (hmax z hz)))
+    simpa using h2
+
+/-- non-vacuity of the hypotheses of `lse_stable_finite`: the real exponential -/
+example : (Transc.exp (0 : ℝ) = 1) ∧ (∀ x : ℝ, 0 ≤ Transc.exp x) ∧ (∀ x : ℝ, x ≤ 0 → Transc.exp x ≤ 1) :=
+  ⟨Real.exp_zero, fun x => (Real.exp_pos x).le, fun _ hx => Real.exp_le_one_iff.mpr hx⟩
+
+/-- non-vacuity: a two-component mixture in one dimension, a query 100 σ away -/
+example : sumS (predictProba (1 : ℝ) 1 [2/3, 1/3] [[7], [-14]] [[[4]], [[4]]] [-1000]) = 1 :=
+  proba_sum_one 1 1 [2/3, 1/3] [[7], [-14]] [[[4]], [[4]]] [-1000] (by simp)
 
 end LinfaSpec.Props.C10
